@@ -369,7 +369,7 @@ def miri_threads_engine(prop, tier, seed):
         if i % 2 == 0 and not any(f.startswith("aes") for f in fams):
             # first-use workloads race the detection cache: they need a type that goes through it
             fams.append(["aes128", "aes192", "aes256"][(i // 2) % 3])
-        plans.append(dict(wl_seed=seed * 1000 + i, nthreads=r.choice([2, 3, 3, 4]), nops=r.choice([2, 3]),
+        plans.append(dict(wl_seed=seed * 1000 + i, nthreads=r.choice([2, 3, 3, 4]), nops=r.choice([1, 2]),
                           mode="firstuse" if i % 2 == 0 else "shared", fams=fams, miri_seeds=(i * per, i * per + per),
                           rate=r.choice([0.003, 0.01, 0.03, 0.1]), variants=variants))
     for p in plans:
